@@ -117,6 +117,13 @@ def r2(ctx):
     if bad:
         ctx.violation("ignored/formula", ctx.where(VISIT_DIR, tail),
                       "an entry must pass exactly when no enabled tool ignores it; the verdict differs e.g. for %s" % bad[0])
+    # git's verdict is asked for the canonical path as well (a walked path like ./x is reported as ignored by libgit2)
+    gi = [c for c in walk_exprs(then) if c["k"] == "MCall" and c["m"] == "is_path_ignored"]
+    if has_git:
+        okg = len(gi) == 1 and "canonical_path" in render(gi[0]["args"][0])
+        ctx.obligation(okg)
+        if not okg:
+            ctx.violation("ignored/filter-args/is_path_ignored", ctx.where(VISIT_DIR), "git's ignore verdict must be asked for the entry's canonical path; it is asked for `%s`" % (render(gi[0]["args"][0]) if gi else None))
     ctx.covered("ignore verdict formula on all assignments of (option on, tool matches) x 3 tools", m,
                 distinct_keys=["assignments:%d" % m], sample=render(tail), exhaustive=True)
     # filters see the canonical path of the entry, with their own filter list
